@@ -161,29 +161,38 @@ def every_popped_started(ctx, facts):
 
 
 def C11_6(ctx, facts):
-    f = facts.unit(facts.fn("client::conn::transport::tcp::TcpConnecting::connect::{closure#0}"))
+    f = facts.unit(facts.fn("client::conn::transport::tcp::TcpConnecting::connect::{closure#0}"), expand=True)
     new = f.calls("happy_eyeballs::EyeballSet::new")
     ctx.floor("TcpConnecting::connect|EyeballSet::new", len(new), 1, "EyeballSet::new")
+    divs = [x for x in f.calls() if x.matches(r"Duration as .*Div.*::div$|ops::Div.*::div$")]
+    ctx.floor("TcpConnecting::connect|delay-division", len(divs), 1, "timeout / number of addresses")
+    db = {x.bb for x in divs}
     for c in new:
         r0, r1, r2 = (f.roots(a) for a in c.args[:3])
-        ok0 = any("happy_eyeballs_timeout" in r.desc for r in r0 if r.kind in ("arg", "upvar"))
-        ok1 = any("happy_eyeballs_timeout" in r.desc for r in r1 if r.kind in ("arg", "upvar")) and not any(r.kind == "call" and r.site.matches(r"Option.*::map$") for r in r1)
+        ok0 = any("happy_eyeballs_timeout" in r.desc for r in r0 if r.kind in ("arg", "upvar")) and any(r.kind == "call" and r.site.bb in db for r in r0)
+        ok1 = any("happy_eyeballs_timeout" in r.desc for r in r1 if r.kind in ("arg", "upvar")) and not any(r.kind == "call" and r.site.bb in db for r in r1)
         ok2 = any("happy_eyeballs_concurrency" in r.desc for r in r2 if r.kind in ("arg", "upvar"))
-        ctx.check(ok0 and ok1 and ok2, "TcpConnecting::connect|new-args", "EyeballSet::new(delay, happy_eyeballs_timeout, happy_eyeballs_concurrency) in that order",
+        ctx.check(ok0 and ok1 and ok2, "TcpConnecting::connect|new-args", "EyeballSet::new(delay = timeout / n, overall = happy_eyeballs_timeout (undivided), happy_eyeballs_concurrency)",
                   "EyeballSet::new argument roots: %s / %s / %s" % (sorted(map(repr, sig(r0)))[:4], sorted(map(repr, sig(r1)))[:4], sorted(map(repr, sig(r2)))[:4]), c.where())
-    maps = [c for c in f.calls() if c.matches(r"Option.*::map$") and "Duration" in (c.t.get("argtys") or [""])[0]]
-    ctx.floor("TcpConnecting::connect|delay-map", len(maps), 1, "timeout.map(|d| d / n)")
-    for c in maps:
-        g, w = f.guarded(c.bb, L_call(f, ("client::conn::dns::SocketAddrs::is_empty",), False))
+
+    def nonempty(lab):
+        if lab.kind == "bool" and lab.value is not None and lab.cond.kind == "call" and lab.cond.site.is_("client::conn::dns::SocketAddrs::is_empty"):
+            return lab.value is False
+        if lab.kind == "int" and lab.value == "else":
+            rr = f.roots(lab.operand)
+            if any(r.kind == "call" and r.site.is_("client::conn::dns::SocketAddrs::len") for r in rr):
+                t = f.term(lab.sw)
+                return any(v == "0" for v, _ in t["ts"])
+        return False
+
+    for c in divs:
+        g, w = f.guarded(c.bb, nonempty)
         ctx.check(g, "TcpConnecting::connect|division-guarded", "timeout / addresses.len() is evaluated only when the address list is not empty", "division reachable with an empty address list", c.where(), f.path_desc(w))
-        ck = closure_arg_of(f, c, 1)
-        body = facts.fns.get(ck) if ck else None
-        divs = [x for x in body.calls() if x.matches(r"Duration as .*Div.*::div$|ops::Div.*::div$")] if body else []
-        okd = len(divs) == 1
-        if okd:
-            rr = body.roots(divs[0].args[1])
-            okd = any(r.kind == "call" and r.site.is_("client::conn::dns::SocketAddrs::len") for r in rr)
-        ctx.check(okd, "TcpConnecting::connect|delay-is-timeout-over-len", "delay = timeout / number of addresses", "delay closure is not duration / addresses.len()", c.where())
+        rr = f.roots(c.args[1])
+        okd = any(r.kind == "call" and r.site.is_("client::conn::dns::SocketAddrs::len") for r in rr)
+        r_n = f.roots(c.args[0])
+        okn = any("happy_eyeballs_timeout" in r.desc for r in r_n if r.kind in ("arg", "upvar"))
+        ctx.check(okd and okn, "TcpConnecting::connect|delay-is-timeout-over-len", "delay = happy_eyeballs_timeout / number of addresses", "delay is not happy_eyeballs_timeout / addresses.len()", c.where())
     en = facts.unit(facts.fn("happy_eyeballs::EyeballSet::new"))
     for (b, i, s) in en.aggregates("happy_eyeballs::EyeballSet"):
         r = s["r"]
